@@ -64,7 +64,7 @@ def task(W, payload):
     if payload.get("mode") == "decimal":
         return decimal_task(W, payload)
     r = random.Random(f"C12:{payload['seed']}:{payload['index']}")
-    prog = Gen(r, Opts(max_strats=3, max_flows=6, allow_requests=True, n_requests=2, allow_computed=False, shuffle_strat_comps_bias=0.5)).program()
+    prog = Gen(r, Opts(max_strats=3, max_flows=6, allow_requests=True, n_requests=2, allow_computed=False, shuffle_strat_comps_bias=0.5, shuffle_split_bias=0.5, split_bias=0.8)).program()
     S = fresh_session(W)
     out = mk_out(prog)
     if not S.build(prog["build"]):
